@@ -36,4 +36,43 @@ def renderOp : UOG.UOp Bytes → String
 /-- `UOG.diffU` on the values, one token per operation -/
 def coreOps (A B : List DNode) : List String := (UOG.diffU (A.map (·.val)) (B.map (·.val))).map renderOp
 
+/-! ## Stage 2a: one user-ordered list with a single key, key-only instances -/
+
+def isPlainKL (s : Nat) : DNode → Bool
+  | .inner s' f m [.term ks kf km _] =>
+    s' == s && ks == s + 1 && !f.dflt && !f.whenTrue && !f.new && m.isEmpty && !kf.dflt && !kf.whenTrue && !kf.new && km.isEmpty
+  | _ => false
+
+/-- the key value of an instance -/
+def keyOfH (n : DNode) : Bytes :=
+  match n.kids with
+  | c :: _ => c.val
+  | [] => []
+
+/-- a key value `lyd_path_list_predicate` can quote -/
+def qokB (z : Bytes) : Bool := !(z.contains 39 && z.contains 34)
+
+/-- the schema node both sibling lists are made of, if the hypotheses of `apply_diff_userord_flat_kl` hold -/
+def flatKL (S : Schema) (A B : List DNode) : Option Nat :=
+  match (A ++ B).head? with
+  | none => none
+  | some n =>
+    let s := n.sid
+    if S.kind? s == some .list && S.isUserOrd s && S.nkeys s == 1 && S.isKey (s + 1) && S.kind? (s + 1) == some .leaf
+        && !(bs (S.name (s + 1))).contains 61
+        && A.all (isPlainKL s) && B.all (isPlainKL s)
+        && nodupB (A.map keyOfH) && nodupB (B.map keyOfH) && (B.map keyOfH).all qokB
+    then some s else none
+
+def predH (S : Schema) (s : Nat) (z : Bytes) : Bytes := keyPredicate S (.inner s {} [] [.term (s + 1) {} [] z])
+
+def renderOpK (S : Schema) (s : Nat) : UOG.UOp Bytes → String
+  | .del k => "d:" ++ Hex.enc k
+  | .create k a => "c:" ++ Hex.enc k ++ ":" ++ (match a with | some z => Hex.enc (predH S s z) | none => "~")
+  | .move k a => "m:" ++ Hex.enc k ++ ":" ++ (match a with | some z => Hex.enc (predH S s z) | none => "~")
+
+/-- `UOG.diffU` on the key values, one token per operation, anchors as key predicates -/
+def coreOpsK (S : Schema) (s : Nat) (A B : List DNode) : List String :=
+  (UOG.diffU (A.map keyOfH) (B.map keyOfH)).map (renderOpK S s)
+
 end LyModel.Diff.UOB
